@@ -181,6 +181,21 @@ func linesProfile(thorough bool) *profile {
 	return p
 }
 
+// linerefs core: every line shape and <br/> placement with every paragraph, span and region REFERENCING a style/region
+// (a reference must survive on every piece a <br/> cuts a span into)
+func lineRefsProfile() *profile {
+	p := linesProfile(false)
+	p.forests = [][]int{{-1}}
+	p.nregions = one(1)
+	p.forceRefs = true
+	p.texts = []string{"x"}
+	p.indents = []int{0, 1}
+	p.brForms = []int{0}
+	p.ns = []int{0}
+	p.windents = 1
+	return p
+}
+
 // refs core: every forest x regions with style references x cue/run references
 func refsProfile(thorough bool) *profile {
 	p := baseProfile()
@@ -1055,6 +1070,8 @@ func run(c *core.Ctx) {
 	lp, rp, ap := linesProfile(thorough), refsProfile(thorough), attrsProfile(thorough)
 	explore.Explore(-1, func(x *explore.C) { cs = gen(x, lp) }, visit("lines"))
 	explore.Explore(-1, func(x *explore.C) { cs = gen(x, rp) }, visit("refs"))
+	lrp := lineRefsProfile()
+	explore.Explore(-1, func(x *explore.C) { cs = gen(x, lrp) }, visit("linerefs"))
 	explore.Explore(-1, func(x *explore.C) { cs = gen(x, ap) }, visit("attrs"))
 	// (3) deviation ball around the baseline document over all model and rendering choice points
 	bp := ballProfile(thorough)
